@@ -57,6 +57,9 @@ func (r *Rand) Pick(xs ...string) string { return xs[r.Intn(len(xs))] }
 // PickInt picks one of the ints.
 func (r *Rand) PickInt(xs ...int) int { return xs[r.Intn(len(xs))] }
 
+// PickBytes chooses one of the byte strings.
+func (r *Rand) PickBytes(xs ...[]byte) []byte { return xs[r.Intn(len(xs))] }
+
 // Bytes returns n arbitrary bytes.
 func (r *Rand) Bytes(n int) []byte {
 	b := make([]byte, n)
